@@ -320,7 +320,7 @@ class SourceDescriptor(SimpleDescriptor):
 
         .. versionadded:: 5.0
         """
-        self.localisedFamilyName[languageCode] = tostr(familyName)
+        self.localisedFamilyName[languageCode] = tostr(familyName or "")
 
     def getFamilyName(self, languageCode="en"):
         """Getter for :attr:`localisedFamilyName`
@@ -730,25 +730,25 @@ class InstanceDescriptor(SimpleDescriptor):
 
     def setStyleName(self, styleName, languageCode="en"):
         """These methods give easier access to the localised names."""
-        self.localisedStyleName[languageCode] = tostr(styleName)
+        self.localisedStyleName[languageCode] = tostr(styleName or "")
 
     def getStyleName(self, languageCode="en"):
         return self.localisedStyleName.get(languageCode)
 
     def setFamilyName(self, familyName, languageCode="en"):
-        self.localisedFamilyName[languageCode] = tostr(familyName)
+        self.localisedFamilyName[languageCode] = tostr(familyName or "")
 
     def getFamilyName(self, languageCode="en"):
         return self.localisedFamilyName.get(languageCode)
 
     def setStyleMapStyleName(self, styleMapStyleName, languageCode="en"):
-        self.localisedStyleMapStyleName[languageCode] = tostr(styleMapStyleName)
+        self.localisedStyleMapStyleName[languageCode] = tostr(styleMapStyleName or "")
 
     def getStyleMapStyleName(self, languageCode="en"):
         return self.localisedStyleMapStyleName.get(languageCode)
 
     def setStyleMapFamilyName(self, styleMapFamilyName, languageCode="en"):
-        self.localisedStyleMapFamilyName[languageCode] = tostr(styleMapFamilyName)
+        self.localisedStyleMapFamilyName[languageCode] = tostr(styleMapFamilyName or "")
 
     def getStyleMapFamilyName(self, languageCode="en"):
         return self.localisedStyleMapFamilyName.get(languageCode)
@@ -2151,7 +2151,7 @@ class BaseDocReader(LogMixin):
                 # '{http://www.w3.org/XML/1998/namespace}lang'
                 for key, lang in labelNameElement.items():
                     if key == XML_LANG:
-                        axisObject.labelNames[lang] = tostr(labelNameElement.text)
+                        axisObject.labelNames[lang] = tostr(labelNameElement.text or "")
             labelElement = axisElement.find(".labels")
             if labelElement is not None:
                 if "ordering" in labelElement.attrib:
